@@ -164,6 +164,19 @@ def mult_features(ts):
             f.add("nested_branch_on_first_of_mult_branch")
         if ts[u[1] - 1]["k"] == ")":
             f.add("double_close_before_mult")
+        depth = mx = 0
+        for k in range(u[0], u[1] + 1):
+            if ts[k]["k"] == "(":
+                depth += 1
+                mx = max(mx, depth)
+            elif ts[k]["k"] == ")":
+                depth -= 1
+                nxt = ts[k + 1]["k"] if k + 1 <= u[1] else ""
+                nxt2 = ts[k + 2]["k"] if k + 2 <= u[1] else ""
+                if nxt == "(" or (nxt == "B" and nxt2 == "("):
+                    f.add("sibling_branches_in_mult_branch")
+        if mx >= 3:
+            f.add("depth3_in_mult_branch")
     return f
 
 
@@ -180,6 +193,16 @@ def _nbfm(record):
 @scope("graph.mult_branch_in_mult_branch")
 def _mbmb(record):
     return "mult_branch_in_mult_branch" in mult_features(_toks(record))
+
+
+@scope("graph.sibling_branches_in_mult_branch")
+def _sbmb(record):
+    return "sibling_branches_in_mult_branch" in mult_features(_toks(record))
+
+
+@scope("graph.depth3_in_mult_branch")
+def _d3mb(record):
+    return "depth3_in_mult_branch" in mult_features(_toks(record))
 
 
 @witness_runner("graph.mult")
